@@ -118,12 +118,12 @@ Qed.
 (* ---- wrappers used by Properties.v ---- *)
 Lemma rt_idiv_ok nochecks a b : in_i64 a -> in_i64 b -> b <> 0 -> rt_idiv nochecks a b = lua_out (lidiv a b).
 Proof.
-  intros. unfold rt_idiv, emit_idiv, emitted_idiv_helper, lidiv. change idiv_guard_first with true. cbn [orb].
+  intros. unfold rt_idiv, emit_idiv, emitted_idiv_helper, lidiv. change rt_maybe_negative with true. change idiv_guard_first with true. cbn [orb].
   replace (b =? 0) with false by lia. apply h_idiv_I64; auto.
 Qed.
 Lemma rt_imod_ok nochecks a b : in_i64 a -> in_i64 b -> b <> 0 -> rt_imod nochecks a b = lua_out (lmod a b).
 Proof.
-  intros. unfold rt_imod, emit_imod, emitted_imod_helper, lmod. change imod_guard_first with true. cbn [orb].
+  intros. unfold rt_imod, emit_imod, emitted_imod_helper, lmod. change rt_maybe_negative with true. change imod_guard_first with true. cbn [orb].
   replace (b =? 0) with false by lia. apply h_imod_I64; auto.
 Qed.
 Lemma rt_div_zero a : in_i64 a ->
